@@ -1328,6 +1328,16 @@ func (t *taintEngine) scanIndex() []taintFinding {
 			}
 			n++
 			unc, path := t.indexUnchecked(fn, in, quantity, o)
+			if !unc {
+				// bounded from above. A signed difference of decoded values can also be negative: that needs
+				// a test against zero (or of the two operands against each other) of its own.
+				if sub := signedDifference(quantity); sub != nil {
+					if neg, npath := t.negativeUnchecked(fn, in, quantity, sub); neg {
+						out = append(out, taintFinding{Fn: fn, Instr: in, Kind: "index", What: fmt.Sprintf("%s#%d", what, n), Origin: note + origin + " (a signed difference that is never tested for being negative)", Path: npath, OK: false})
+						return
+					}
+				}
+			}
 			out = append(out, taintFinding{Fn: fn, Instr: in, Kind: "index", What: fmt.Sprintf("%s#%d", what, n), Origin: note + origin, Path: path, OK: !unc})
 		}
 		for _, b := range fn.Blocks {
@@ -1526,4 +1536,100 @@ func loopBoundOf(ph *ssa.Phi) ssa.Value {
 		}
 	}
 	return nil
+}
+
+// signedDifference: the position is (derived from) x - y on a signed type with a non-constant y.
+func signedDifference(v ssa.Value) *ssa.BinOp {
+	seen := map[ssa.Value]bool{}
+	var found *ssa.BinOp
+	var walk func(v ssa.Value, d int)
+	walk = func(v ssa.Value, d int) {
+		if v == nil || seen[v] || d > 10 || found != nil {
+			return
+		}
+		seen[v] = true
+		switch x := v.(type) {
+		case *ssa.Convert:
+			walk(x.X, d+1)
+		case *ssa.ChangeType:
+			walk(x.X, d+1)
+		case *ssa.Phi:
+			for _, e := range x.Edges {
+				walk(e, d+1)
+			}
+		case *ssa.UnOp:
+			if a, ok := x.X.(*ssa.Alloc); ok && x.Op == token.MUL {
+				for _, ref := range *a.Referrers() {
+					if st, ok := ref.(*ssa.Store); ok && st.Addr == a {
+						walk(st.Val, d+1)
+					}
+				}
+			}
+		case *ssa.BinOp:
+			if x.Op == token.SUB {
+				if _, isK := x.Y.(*ssa.Const); !isK {
+					if b, ok := x.Type().Underlying().(*types.Basic); ok && b.Info()&types.IsUnsigned == 0 {
+						found = x
+						return
+					}
+				}
+			}
+			if x.Op == token.ADD || x.Op == token.SUB {
+				walk(x.X, d+1)
+				walk(x.Y, d+1)
+			}
+		}
+	}
+	walk(v, 0)
+	return found
+}
+
+// negativeUnchecked: can the sink be reached without a comparison of the difference (or a value
+// computed from it) with a constant, or of its two operands with each other?
+func (t *taintEngine) negativeUnchecked(fn *ssa.Function, sink ssa.Instruction, v ssa.Value, sub *ssa.BinOp) (bool, []string) {
+	g, keys := t.derivGroup(v)
+	g[sub] = true
+	inGroup := t.inGroupFn(g, keys)
+	gx, kx := t.derivGroup(sub.X)
+	gx[sub.X] = true
+	gy, ky := t.derivGroup(sub.Y)
+	gy[sub.Y] = true
+	inX, inY := t.inGroupFn(gx, kx), t.inGroupFn(gy, ky)
+	del := map[edge]bool{}
+	for _, b := range fn.Blocks {
+		ifi, ok := b.Instrs[len(b.Instrs)-1].(*ssa.If)
+		if !ok || b == sink.Block() {
+			continue
+		}
+		bo, ok := ifi.Cond.(*ssa.BinOp)
+		if !ok {
+			continue
+		}
+		switch bo.Op {
+		case token.LSS, token.LEQ, token.GTR, token.GEQ:
+		default:
+			continue
+		}
+		guard := false
+		if k, isK := constInt(bo.Y); isK && k <= 0 && inGroup(bo.X) {
+			guard = true
+		}
+		if k, isK := constInt(bo.X); isK && k <= 0 && inGroup(bo.Y) {
+			guard = true
+		}
+		if (inX(bo.X) && inY(bo.Y)) || (inY(bo.X) && inX(bo.Y)) {
+			guard = true
+		}
+		if guard {
+			for si := range b.Succs {
+				del[edge{b.Index, si}] = true
+			}
+		}
+	}
+	pred := map[int]int{}
+	seen := reach(fn, []*ssa.BasicBlock{fn.Blocks[0]}, del, pred)
+	if seen[sink.Block().Index] {
+		return true, t.p.witness(fn, pred, sink.Block().Index)
+	}
+	return false, nil
 }
